@@ -5,7 +5,7 @@
 (*   <<4, id>> PeerOpenReject   <<5, id>> Close                                       *)
 (*   <<6, id>> stray OPEN_FAILURE   <<7, id>> stray OPEN_CONFIRMATION   <<8, id>> duplicate CLOSE *)
 (* StrayFirst = TRUE directs the generation: the history starts with a stray          *)
-(* OPEN_FAILURE for a channel that is open, and only opens follow - the counter then   *)
+(* OPEN_FAILURE for a channel that is open, which then stays open - the counter         *)
 (* travels towards that id (wrap-around).                                              *)
 (* `adv` is how far the counter has moved: histories stop before it has gone once    *)
 (* round the model's (small) id space, so that model ids map one-to-one, in order,   *)
@@ -33,12 +33,15 @@ GNext ==
      \/ ~First /\ PeerOpenBegin /\ Step(2, NextFree(counter, map)) /\ adv' = adv + Dist(counter, counter')
      \/ PeerOpenCommit /\ Step(3, pend["T"]) /\ adv' = adv
      \/ PeerOpenReject /\ Step(4, pend["T"]) /\ adv' = adv
-     \/ ~StrayFirst /\ \E id \in DOMAIN open : Close(id) /\ Step(5, id) /\ adv' = adv
+     \/ ~First /\ \E id \in DOMAIN open : /\ (StrayFirst => id # hist[2][2])     \* the named channel stays open
+                                            /\ Close(id) /\ Step(5, id) /\ adv' = adv
      \/ \E id \in StrayIds : /\ (StrayFirst => First /\ id \in DOMAIN open) /\ StrayCount < 2
                         /\ StrayOpenFailure(id) /\ Step(6, id) /\ adv' = adv
      \/ ~StrayFirst /\ StrayCount < 2 /\ \E id \in StrayIds : StrayOpenSuccess(id) /\ Step(7, id) /\ adv' = adv
      \/ ~StrayFirst /\ StrayCount < 2 /\ \E id \in StrayIds : DuplicateClose(id) /\ Step(8, id) /\ adv' = adv
   /\ adv' < N
 GSpec == GInit /\ [][GNext]_<<vars, hist, adv>>
-Emit == (Len(hist) = MaxSteps + 1 /\ "T" \notin DOMAIN pend) => PrintT(<<"BEH", hist>>)
+\* complete: the step budget is used up, or (directed run) the counter has been all the way round
+Emit == ("T" \notin DOMAIN pend /\ (Len(hist) = MaxSteps + 1 \/ (StrayFirst /\ adv >= N - 2)))
+        => PrintT(<<"BEH", hist>>)
 =============================================================================
